@@ -619,7 +619,11 @@ int process_patch(const Options& options)
 
         // The new name of a rename or copy may be taken by something which is no file either.
         // NOTE: with -o what is written to is whatever we were told to write to.
-        auto is_not_a_regular_file = [](const std::string& path) {
+        // NOTE: a symbolic link is only what is patched if the patch says that it is one.
+        const bool is_symlink_patch = filesystem::is_symlink(patch.old_file_mode) || filesystem::is_symlink(patch.new_file_mode);
+        auto is_not_a_regular_file = [&](const std::string& path) {
+            if (!is_symlink_patch && filesystem::is_symlink(path))
+                return true;
             return filesystem::exists(path) && !filesystem::is_regular_file(path);
         };
         std::string not_a_regular_file;
